@@ -210,7 +210,10 @@ auto transpose(const Matrix& matrix) {
 template<class Matrix,
   std::enable_if_t<not Impl::HasMemberFunctionTransposed<std::decay_t<Matrix>>::value, int> = 0>
 auto transpose(Matrix&& matrix) {
-  return Impl::TransposedMatrixWrapper(std::forward<Matrix>(matrix));
+  // name the wrapped type explicitly: with class template argument deduction a
+  // TransposedMatrixWrapper argument would select the copy deduction candidate,
+  // i.e. transpose(transpose(...)) would copy the wrapper instead of wrapping it
+  return Impl::TransposedMatrixWrapper<std::decay_t<Matrix>>(std::forward<Matrix>(matrix));
 }
 
 
